@@ -20,6 +20,7 @@ import (
 	"go.6river.tech/mmmbbb/actions"
 	"go.6river.tech/mmmbbb/ent"
 	"go.6river.tech/mmmbbb/grpc/pubsubpb"
+	"go.6river.tech/mmmbbb/logging"
 )
 
 type PubMsg struct {
@@ -662,16 +663,12 @@ func (e *Env) Exec(ctx context.Context, op *Op, pre *Dump) (*Obs, error) {
 			resp = &Resp{Kind: "unit"}
 		}
 	case "StreamAckNack":
+		// the stream reader's own settlement of one client message (MessageStreamer.doAcksNacks,
+		// reached through the verif hook): acks and nacks in one transaction
 		acks, _ := parseIDs(op.AckIDs)
 		nacks, _ := parseIDs(op.Nacks)
-		ack := actions.NewAckDeliveries(acks...)
-		nack := actions.NewNackDeliveries(nacks...)
-		err = e.Client.DoTx(ctx, nil, func(tx *ent.Tx) error {
-			if err := ack.Execute(ctx, tx); err != nil {
-				return err
-			}
-			return nack.Execute(ctx, tx)
-		})
+		ms := &actions.MessageStreamer{Client: e.Client, Logger: logging.GetLogger("verif/stream-settle")}
+		err = ms.VerifDoAcksNacks(ctx, acks, nacks)
 		if err == nil {
 			resp = &Resp{Kind: "unit"}
 		}
